@@ -178,6 +178,27 @@ def _canon(e):
         if isinstance(c, tuple) and c and c[0] == "not":
             return ("ite", c[1], b, a)
         return ("ite", c, a, b)
+    # ---- iteration over a dict: `for k, v in d.items()`, `for v in d.values()` and `for k in d: d[k]` name the same things
+    if t == "elem" and len(e) == 3:
+        di = _dict_iter(e[1])
+        if di is not None:
+            kind, X = di
+            return ({"items": "ditem", "values": "dval", "keys": "dkey"}[kind], canon(X), e[2])
+        return ("elem", canon(e[1]) if isinstance(e[1], tuple) else e[1], e[2])
+    if t == "item" and len(e) == 3 and isinstance(e[1], tuple):
+        inner = canon(e[1])
+        if isinstance(inner, tuple) and inner and inner[0] == "ditem" and e[2] in (0, 1):
+            return ("dkey" if e[2] == 0 else "dval", inner[1], inner[2])
+        return ("item", inner, e[2])
+    if t == "sub" and len(e) == 3 and isinstance(e[2], tuple) and isinstance(e[1], tuple):
+        k = canon(e[2])
+        if isinstance(k, tuple) and k and k[0] == "dkey":
+            b = canon(e[1])
+            if b == k[1]:
+                return ("dval", k[1], k[2])  # d[k] for the key being iterated is the value being iterated
+            return ("sub", b, k)
+    if t in ("mcall", "call") and _dict_iter(e) is not None:
+        return ("dictiter", canon(_dict_iter(e)[1]))
     if t == "comp" and len(e) == 5 and e[1] == "dict" and not e[4]:
         v, it = e[2], e[3]
         if (isinstance(v, tuple) and len(v) == 3 and v[0] == "tuple" and all(isinstance(x, tuple) and len(x) == 3 and x[0] == "item" for x in v[1:]) and v[1][2] == 0 and v[2][2] == 1
@@ -293,6 +314,22 @@ def _canon_cmp(op, a, b):
     return ("cmp", op, d.canon())
 
 
+_DICT_FIELDS = ("children", "_lazy_children", "additional_data", "perm")
+
+
+def _dict_iter(it):
+    """('items' | 'values' | 'keys', dict value) when `it` iterates a dict that way (a list() snapshot of it included), else None"""
+    if not (isinstance(it, tuple) and it):
+        return None
+    if it[0] == "call" and it[1] == "list" and len(it[2]) == 1 and not it[3]:
+        return _dict_iter(it[2][0])
+    if it[0] == "mcall" and len(it) >= 5 and it[2] in ("items", "values", "keys") and not it[3] and not it[4]:
+        return (it[2], it[1])
+    if it[0] == "fld" and len(it) == 4 and it[2] in _DICT_FIELDS:
+        return ("keys", it)
+    return None
+
+
 _FRAME_NAMES = ("universe", "data", "_universe", "_funiverse", "_original_data")
 
 
@@ -374,7 +411,12 @@ def _lits(c, pol):
 def saturate(guard):
     """Close a conjunction of literals under unit propagation through its disjunctive literals
     (implications recorded at merges: `cond => extra` is the literal (not cond or extra))."""
-    g = set(guard)
+    g = set()
+    for a, pol in guard:
+        try:
+            g.add((canon(a) if isinstance(a, tuple) and a and a[0] != "impl" else a, pol))
+        except Exception:
+            g.add((a, pol))
     # compound literals are also recorded through their De Morgan dual
     for a, pol in list(g):
         if isinstance(a, tuple) and a and a[0] in ("and", "or"):
